@@ -3300,6 +3300,12 @@ func (h *RequestHeader) parseHeaders(buf []byte, blockEnd int) (int, error) {
 	if h.contentLength < 0 {
 		h.contentLengthBytes = h.contentLengthBytes[:0]
 	}
+	if transferEncodingSeen && (contentLengthSeen || h.contentLength != -1) {
+		// RFC 9112 section 6.3: a request carrying both Transfer-Encoding and
+		// Content-Length, or a Transfer-Encoding other than chunked, has
+		// ambiguous framing. Serve it, but never reuse the connection.
+		h.connectionClose = true
+	}
 	if h.noHTTP11 && !h.connectionClose {
 		// close connection for non-http/1.1 request unless 'Connection: keep-alive' is set.
 		v := peekArgBytes(h.h, strConnection)
